@@ -49,6 +49,8 @@ Apply(h, s, e) ==
   IN CASE e.op = "new" -> [st |-> s, outs |-> {IF LegalNew(h) THEN N ELSE P}]
        [] e.op \in {"input", "input_str"} ->
             IF c.done THEN [st |-> s, outs |-> {P}] ELSE [st |-> [s EXCEPT ![x].fed = c.fed \o e.data], outs |-> {N}]
+       [] e.op = "raw_result" /\ Has(e, "n") /\ Has(h, "mac") /\ h.mac = "poly1305" ->                   \* into a caller's buffer of n bytes (pre-filled with 0xa5): Poly1305 writes the first 16 and needs at least 16
+            IF e.n < 16 THEN [st |-> s, outs |-> {P}] ELSE take(LAMBDA v : v \o [i \in 1..(e.n - Len(v)) |-> 165])
        [] e.op \in {"result", "raw_result"} -> take(LAMBDA v : v)
        [] e.op = "result_str" -> take(HexOf)
        [] e.op = "reset" -> [st |-> [s EXCEPT ![x] = FreshObj(c.key)], outs |-> {N}]
